@@ -421,6 +421,7 @@ const replayHelpers = `
 func vrSq(x float64) float64 { return x * x }
 func vrSqI(x int) int       { return x * x }
 func vrFinite(x float64) bool { return !math.IsNaN(x) && !math.IsInf(x, 0) }
+func vrIsInt(x float64) bool  { return math.Abs(x-math.Round(x)) <= 1e-9*math.Max(1, math.Abs(x)) }
 
 // vrApprox: structural equality with a relative tolerance on floats (the
 // real-number model's equalities are checked up to rounding).
@@ -933,6 +934,8 @@ func (g *goGen) call(n *ECall) string {
 			return g.expr(n.Args[0]) + ".(" + n.Args[1].(*EString).V + ")"
 		case "dyntype":
 			return fmt.Sprintf("func() bool { _, ok := interface{}(%s).(%s); return ok }()", g.expr(n.Args[0]), n.Args[1].(*EString).V)
+		case "isint":
+			return "vrIsInt(float64(" + g.expr(n.Args[0]) + "))"
 		case "ghost":
 			return "0" // ghost state has no run-time counterpart
 		case "calls":
